@@ -174,6 +174,19 @@ def _roundtrip(spec, res):
                 return
         if scale0 is not None and not np.array_equal(scale0, np.asarray(mod.action_scale.value)):
             res.violate("C16.f", site, "set_params changed a non-Param variable (action_scale)")
+    if spec["hidden"]:
+        # a second network of the same structure but other widths, in the same process, right after the first one
+        wide = [h + 2 for h in spec["hidden"]]
+        net2 = MLP(spec["n_features"], spec["n_outputs"], wide, spec["activation"], nnx.Rngs(spec["seed"] + 1))
+        p2 = np.asarray(_call(res, "flat_params", flat_params, net2))
+        vec = (np.arange(p2.size, dtype=np.float32) - 7.0) / 16.0
+        _call(res, site, set_params, net2, jnp.asarray(vec))
+        y = np.asarray(_call(res, "flat_params", flat_params, net2))
+        res.log.add("roundtrip2", vec, y)
+        if y.shape != vec.shape or y.tobytes() != vec.tobytes():
+            res.violate("C16.f", site, f"second network of the same structure but widths {wide} (after {list(spec['hidden'])} in the same process): flat_params(set_params(net, x)) != x")
+            return
+        res.probe("roundtrip_second_architecture")
     if spec.get("wrap"):
         res.probe("roundtrip_wrapped_policy")
     if len(spec["hidden"]) == 0:
